@@ -21,7 +21,10 @@ MANIFEST = {
     "filled by processMsg with the value (or the exception) of the message that plan just yielded and the next "
     "afterSleep sends (throws) exactly that into the same generator; open_run returns the uid of the start document "
     "it emits and appends it to the list RE() returns; read returns the reading that is cached for (and emitted in) "
-    "the event; set/trigger return the status created by that very call. For commands that really suspend the "
+    "the event; set/trigger return the status created by that very call. C13_return_uids: a second GLOBAL invariant "
+    "(every block / action / scheduler step extends _run_start_uids and the runs of the emitted start documents by the "
+    "same entries) gives: what RE()/resume()/abort()/stop()/halt() return is exactly the list of start documents "
+    "emitted since the call began, in order, for every plan, script and fuel. For commands that really suspend the "
     "theorem `C13_resumed_command_pushes` says what is pushed when _run is resumed; the full statement C13_full "
     "(only the command's own answer is ever pushed) is FALSE (Counterexamples/C13.lean, finding F6: a cancellation "
     "delivered inside `wait` answers it with None) and proved as C13_own_answer_partial for resumptions without a "
